@@ -255,6 +255,8 @@ func registerModels(ex *Exec) {
 	ex.ReplaceByGo["bytes.IndexByte"] = "verifModelIndexByte"
 	ex.ReplaceByGo["internal/bytealg.CountString"] = "verifModelCountString"
 	ex.ReplaceByGo["strings.Count"] = "verifModelStringsCount"
+	ex.ReplaceByGo["(*sync.Pool).Get"] = "verifModelPoolGet"
+	ex.ReplaceByGo["(*sync.Pool).Put"] = "verifModelPoolPut"
 
 	// ---- strings
 	m["strings.ToLower"] = func(ex *Exec, s *State, cc *ssa.CallCommon, a []Value) (Value, *Fork, error) {
@@ -330,6 +332,7 @@ func registerModels(ex *Exec) {
 	registerBigModels(ex)
 	registerSignedBigModels(ex)
 	registerEdwardsModels(ex)
+	registerBctModels(ex)
 	registerMiscModels(ex)
 }
 
@@ -409,7 +412,28 @@ func (ex *Exec) assert(s *State, id string, cond *Term) {
 	}
 	q0 := ex.Solver.TimeSpent
 	var r Result
-	if qm := ex.quickCounterexample(s.PC, cond, 3); qm != nil {
+	if len(ex.opaqueInst) > 1 {
+		// memoised opaque functions: a counterexample candidate must respect functional consistency
+		// (congruence axioms are added lazily, see refineOpaque)
+		s.PC = appendMissing(s.PC, ex.opaqueAx)
+		r = ex.checkSat(s, neg)
+		for round := 0; r == Sat && round < 40; round++ {
+			ax, rr := ex.refineOpaque(append(append([]*Term{}, s.PC...), neg))
+			if rr != Sat {
+				r = rr
+				break
+			}
+			if len(ax) == 0 {
+				break
+			}
+			ex.opaqueAx = append(ex.opaqueAx, ax...)
+			s.PC = append(s.PC, ax...)
+			r = ex.checkSat(s, neg)
+			if round == 39 && r == Sat {
+				r = Unknown
+			}
+		}
+	} else if qm := ex.quickCounterexample(s.PC, cond, 3); qm != nil {
 		// found by concrete evaluation; reported only after native replay like any other
 		ex.quickModel = qm
 		r = Sat
@@ -747,4 +771,20 @@ func modelAsAssign(ex *Exec, s *State, cc *ssa.CallCommon, a []Value) (Value, *F
 		return ex.Ctx.True(), nil, ex.store(s, tv.V.(Ptr), ev.V)
 	}
 	return ex.Ctx.False(), nil, nil
+}
+
+func appendMissing(pc []*Term, ax []*Term) []*Term {
+	if len(ax) == 0 {
+		return pc
+	}
+	have := map[*Term]bool{}
+	for _, t := range pc {
+		have[t] = true
+	}
+	for _, a := range ax {
+		if !have[a] {
+			pc = append(pc, a)
+		}
+	}
+	return pc
 }
